@@ -1,4 +1,5 @@
 import GoSQLXModel.Proofs.LintLemmas
+import GoSQLXModel.Proofs.LintOnlyBlanks
 import GoSQLXModel.Gen.LintKeywords
 import GoSQLXModel.Proofs.LintLex
 import GoSQLXModel.Proofs.LintL003
@@ -20,6 +21,11 @@ byte-exact correspondence on every generated text.  Proved for **all** texts:
   idempotent fixer; `split_join` / `join_split` are the Go `strings.Split`/`Join` round trips);
 * `fixL001_relint_clean` — after L001 no line ends in a blank;
 * `fixL010_local` — the rewriter leaves every stretch it regards as quoted byte-identical (`quotedOf`).
+* `whitespace_fixers_touch_only_blanks`, `whitespace_fixers_only_delete` (`Proofs/LintOnlyBlanks.lean`) — for **every**
+  text, tame or not: the sequence of characters other than space and tab (line feeds included) is the same after L001,
+  L002 and L010 as before, and L001 / L010 output is a subsequence of the input (they only delete).  So no fixer adds,
+  drops or reorders a character of a word, number, operator, quote or comment marker, or changes the line structure;
+  what remains for the token level is only *which blanks* go.
 * `l001_keeps_tokens` (`Proofs/LintLex.lean`) — **the trailing-whitespace fixer against the tokenizer model**: for every
   *tame* text of C04's reference grammar (every lexeme on one line, comments on one line, a line comment not ending in a
   blank, blank runs written as one piece — any length, any mix of words, two-word keywords, numbers, operators, literals,
@@ -158,5 +164,16 @@ theorem multiline_literal_counterexample :
 /-- known-finding shape: a quote inside a block comment flips the state for the rest of the line -/
 theorem quote_in_comment_counterexample :
     fixL010 "/* it's */ 'a  b'  x".toList = "/* it's */ 'a b'  x".toList := by decide
+
+theorem whitespace_fixers_touch_only_blanks (s : List Char) :
+    (fixL001 s).filter nonBlank = s.filter nonBlank ∧ (fixL002 s).filter nonBlank = s.filter nonBlank ∧
+    (fixL010 s).filter nonBlank = s.filter nonBlank :=
+  ⟨fixL001_keeps_nonblanks s, fixL002_keeps_nonblanks s, fixL010_keeps_nonblanks s⟩
+
+theorem whitespace_fixers_only_delete (s : List Char) : (fixL001 s).Sublist s ∧ (fixL010 s).Sublist s :=
+  ⟨fixL001_sublist s, fixL010_sublist s⟩
+
+/-- non-vacuity: blanks go, everything else (quotes, line feeds, comment markers) stays in order -/
+example : (fixL010 "a  b -- c  d \n 'x  y'  z".toList).filter nonBlank = "ab--cd\n'xy'z".toList := by decide
 
 end GoSQLXModel.Props.C17
